@@ -94,6 +94,8 @@ type Header struct {
 	NSys   int     `json:"nsys"`
 	Events []Event `json:"events"`
 	Total  int     `json:"total"`
+	// Compile!KernelObserves: decision -> what the calling thread observes on the running kernel
+	Observes map[string]string `json:"observes"`
 }
 
 // ---- actions
